@@ -2370,7 +2370,9 @@ vbi_decode_teletext(vbi_decoder *vbi, uint8_t *buffer)
 		cvtp->pgno = pgno;
 		vbi->vt.current = rvtp;
 
-		subpage = vbi_unham16p (p + 2) + vbi_unham16p (p + 4) * 256;
+		/* Not a sum: an error in either byte pair (-1) must
+		   leave the result negative. */
+		subpage = vbi_unham16p (p + 2) | (vbi_unham16p (p + 4) << 8);
 		flags = vbi_unham16p (p + 6);
 
 		if (page == 0xFF || (subpage | flags) < 0) {
